@@ -9,7 +9,7 @@ HOME_V="$(cd "$(dirname "$0")/.." && pwd)"
 mkdir -p "$S/util" "$S/bin"
 rsync -a --exclude .git "$REPO"/ "$S/util/"
 mkdir -p "$S/util/internal/vsim" "$S/util/vsimcmd"
-for p in core sched vsync vrand vrand2 vtime vcontext vchan vatomic vrace c19 c17 c20; do
+for p in core sched vsync vrand vrand2 vcrand vtime vcontext vchan vatomic vrace c19 c17 c20; do
   [ -d "$HOME_V/sim/$p" ] && cp -r "$HOME_V/sim/$p" "$S/util/internal/vsim/$p"
 done
 cp "$HOME_V"/sim/cmd/*.go "$S/util/vsimcmd/"
